@@ -569,7 +569,13 @@ func (i *interpreter) nativeArgs(fr *frame, args []value) []interface{} {
 func (i *interpreter) sprintf(fr *frame, format value, args []value) value {
 	f, ok := format.(string)
 	if !ok {
-		panic(unsupported{"symbolic format string"})
+		// a symbolic format without verbs formats to itself
+		fs := format.(sym)
+		if len(args) == 0 && !i.branch(&smt.Term{Sort: smt.Bool, S: "(str.contains " + fs.T.S + " \"%\")"}) {
+			i.stub("fmt.Sprintf(symbolic format without verbs) = the format")
+			return fs
+		}
+		panic(unsupported{"symbolic format string containing %"})
 	}
 	if f == "%s%s" && len(args) == 2 {
 		a, aok := args[0].(iface)
